@@ -30,8 +30,9 @@ fn model_next(last: i32, inuse: &BTreeSet<i32>) -> i32 {
 enum Park {
     /// single operation, server silent
     Single,
-    /// streaming search, server sent k entries which the client has read; stream kept open
-    Stream(usize),
+    /// streaming search, server sent k entries which the client has read, and `unread` more which it
+    /// has not (a reader lagging far behind still owns its ID); stream kept open
+    Stream(usize, usize),
     /// streaming search read to its end (SearchResultDone received, ID released) but not yet
     /// finish()ed; finish() is called at the very end, when its old ID may belong to someone else
     DoneStream,
@@ -99,7 +100,7 @@ async fn wrap_server(mut server: pipe::ServerEnd, log: Arc<Mutex<Vec<(u64, i64, 
 fn run_wrap_case(i: u64, pattern: u32, k_below: i32, rng: &mut Rng, rep: &mut Report, verbose: bool) {
     // IDs 1..4 and MAX-3..MAX; bit b of `pattern` says whether slot b is parked
     let slots: Vec<i32> = vec![1, 2, 3, 4, MAX - 3, MAX - 2, MAX - 1, MAX];
-    let parked: Vec<(i32, Park)> = slots.iter().enumerate().filter(|(b, _)| pattern >> b & 1 == 1).map(|(_, id)| (*id, match rng.below(8) { 0 | 1 => Park::Single, 2 | 3 => Park::Stream(rng.usize(3)), 4 => Park::DoneStream, 5 => Park::TimedOutStream, 6 => Park::AbandonedStream(rng.usize(3)), _ => Park::PagedLater })).collect();
+    let parked: Vec<(i32, Park)> = slots.iter().enumerate().filter(|(b, _)| pattern >> b & 1 == 1).map(|(_, id)| (*id, match rng.below(8) { 0 | 1 => Park::Single, 2 | 3 => Park::Stream(rng.usize(3), *rng.pick(&[0usize, 0, 0, 1, 40, 1025, 3000])), 4 => Park::DoneStream, 5 => Park::TimedOutStream, 6 => Park::AbandonedStream(rng.usize(3)), _ => Park::PagedLater })).collect();
     let n_ops = (2 * k_below + 8) as usize;
     // 0 = answered at once, 1 = left pending, 2 = an operation that times out at once followed, without
     // yielding to the driver, by a new pending operation for which the timed-out ID is the next candidate
@@ -133,9 +134,9 @@ fn run_wrap_case(i: u64, pattern: u32, k_below: i32, rng: &mut Rng, rep: &mut Re
                     keep.push(Box::new(tokio::spawn(async move { invoke(&mut l, &Call::Delete { dn }).await })));
                     world::settle().await;
                 }
-                Park::Stream(k) => {
+                Park::Stream(k, unread) => {
                     let mut l = ldap.clone();
-                    let base = format!("op={},b=e{}", tok, k);
+                    let base = format!("op={},b=e{}", tok, k + unread);
                     let mut st = l.streaming_search(&base, Scope::Base, "(a=b)", vec!["*"]).await.expect("park stream");
                     for _ in 0..*k {
                         let _ = st.next().await;
@@ -459,6 +460,9 @@ fn run_wrap_case(i: u64, pattern: u32, k_below: i32, rng: &mut Rng, rep: &mut Re
     let _ = final_table;
     if wrapped {
         rep.count("cases_that_wrapped", 1);
+    }
+    if parked.iter().any(|(_, k)| matches!(k, Park::Stream(_, u) if *u > 1024)) {
+        rep.count("cases_with_a_parked_stream_lagging_by_more_than_1024_items", 1);
     }
     rep.count("allocations_checked", events.len() as u64 - 1);
     rep.distinct("parked_patterns", pattern as u64);
